@@ -43,7 +43,7 @@ integer_re = re.compile(
         0(_?0)* # decimal zero
     )
     """,
-    re.IGNORECASE | re.VERBOSE,
+    re.IGNORECASE | re.VERBOSE | re.ASCII,
 )
 float_re = re.compile(
     r"""
@@ -56,7 +56,7 @@ float_re = re.compile(
         \.(\d+_)*\d+  # required fractional part
     )
     """,
-    re.IGNORECASE | re.VERBOSE,
+    re.IGNORECASE | re.VERBOSE | re.ASCII,
 )
 
 # internal the tokens and keep references to them
